@@ -16,7 +16,10 @@ META = {
             "error) are proved for all inputs over the model of the repaired code, assuming exact GCM/base64 laws and the "
             "idealisations INT-CTXT and collision-free key derivation; C27_old_refuted keeps the pre-repair witnesses "
             "(\"\\xffEG3abc\" -> (\"\", nil); non-canonical base64 spellings accepted). The frame parser model is compared with "
-            "the real util.Decrypt and settings.Decrypt on every run (random bytes, all truncations, byte edits, extensions, "
+            "the real util.Decrypt and settings.Decrypt on every run; token STRINGS end to end (Token.v: hex.DecodeString + Decrypt + empty test): "
+            "C27_token_roundtrip, C27_token_reject (every string that is not the issued one up to hex letter case - odd length, non-hex "
+            "byte, changed/dropped/added digit, other key - is rejected) and C27_decrypt_exact (the premise of C21_altered_rejected as a "
+            "theorem); hexdecode is compared with encoding/hex and the call chain of tokens/{unwrap,validate,new}.go is re-read on every run (random bytes, all truncations, byte edits, extensions, "
             "wrong keys, older formats) and the property is evaluated on the real outputs. full for the framing layer; AEAD "
             "and KDF idealised",
     "note": "Trusted: Coq kernel; AES-GCM, Argon2id, PBKDF2, MD5, SHA-256 and encoding/base64 are not modelled (premises "
